@@ -207,6 +207,16 @@ func (d *dumper) dump(sb *strings.Builder, v any) {
 		}
 	case int64:
 		sb.WriteString("i:" + strconv.FormatInt(x, 10))
+	case int, int8, int16, int32:
+		sb.WriteString("i:" + strconv.FormatInt(reflect.ValueOf(x).Int(), 10))
+	case uint, uint8, uint16, uint32, uint64:
+		sb.WriteString("u:" + strconv.FormatUint(reflect.ValueOf(x).Uint(), 10))
+	case float32:
+		fmt.Fprintf(sb, "f:%016x", math.Float64bits(float64(x)))
+	case complex128:
+		fmt.Fprintf(sb, "x:%016x,%016x", math.Float64bits(real(x)), math.Float64bits(imag(x)))
+	case complex64:
+		fmt.Fprintf(sb, "x:%016x,%016x", math.Float64bits(float64(real(x))), math.Float64bits(float64(imag(x))))
 	case *big.Int:
 		sb.WriteString("L:" + x.Text(16))
 	case float64:
